@@ -493,6 +493,21 @@ func runC19(t *testing.T, c Case) (res Result) {
 			}
 			delivered += delEv[k]
 		}
+		// a DELETED event carries the record that was removed: a value some acknowledged write gave that key
+		for _, e := range s.st.events {
+			if e.status != hydrapb.Status_DELETED || e.key == "anchor" || e.key == "" {
+				continue
+			}
+			known := false
+			for _, ch := range changes {
+				if ch.key == e.key && ch.status != "DELETED" && e.hasVal && ch.val == e.val {
+					known = true
+				}
+			}
+			if !known {
+				return fail(violation("deleted_event_without_committed_value", "subscriber %d received a DELETED event for key %s that carries no value any write gave that key (has value: %v, value %d)", si, e.key, e.hasVal, e.val))
+			}
+		}
 		for k, n := range delEv {
 			if delAck[k] == 0 && n > 0 {
 				return fail(violation("spurious_event", "subscriber %d received a DELETED event for key %s that nobody removed", si, k))
